@@ -932,6 +932,14 @@ example : (finalWfq [0, 0, 1, 1, 1, 0] 39 [(0, 0), (0, 1), (0, 2), (1, 3), (1, 4
     (finalWfq [0, 0, 1, 1, 1, 0] 40 [(0, 0), (0, 1), (0, 2), (1, 3), (1, 4), (0, 5)]).isSome = true := by
   decide +kernel
 
+/-- a burst on the kernel (the setting of `kernel_wfq_static_backlog_fair`): packets 0 (class 0, stamp 1), 1, 2 (class 1, stamps
+1/3, 2/3) and 3 (class 0, stamp 2) all arrive at instant 1.  Packet 0 is handed to the blocked loop before packet 1 has arrived
+and is served first, 1→2, although packets 1 and 2 carry smaller stamps; then stamp order: 1, 2, 3 -/
+example : runWfq [0, 1, 1, 0] 80 [(1, 0), (0, 1), (0, 2), (0, 3)] = some (0, [1, 1/3, 2/3, 2], true) ∧
+    runWfqT [0, 1, 1, 0] 80 [(1, 0), (0, 1), (0, 2), (0, 3)] =
+      some ([(0, 1), (1, 2), (2, 3), (3, 4)], [(0, 2), (1, 3), (2, 4), (3, 5)]) := by
+  decide +kernel
+
 /-- a busy period that ends and restarts: packets 0 (class 0) and 1 (class 1) arrive at 1, packet 2 (class 0, stamp 2) at 3/2;
 they leave at 2, 3, 4 and the loop resets virtual time and the finish times at 4.  Packet 3 (class 1) arrives at 13/2: virtual
 time 0, and its stamp is 1/3 again — as for packet 1 —, packet 4 (class 0) at 7: virtual time (1/2)/3 = 1/6, stamp 7/6 -/
